@@ -86,21 +86,20 @@ def accessor_table(ctx, rr):
                 maps = {}
                 for m in ms:
                     maps[m] = _out_mapping(P, methods[m]) or _out_mapping_rows(ctx, methods[m])
-                vals = set(tuple(sorted(v.items())) if v else None for v in maps.values())
+                def val_of(x):
+                    if x is None:
+                        return None
+                    return int(x) if str(x).isdigit() else CE.get(mod, x)
+                vals = set(tuple(sorted((k_, val_of(x_)) for k_, x_ in v.items())) if v else None for v in maps.values())
                 ok = len(vals) == 1 and None not in vals
                 exp = None
                 if ok:
                     mp = dict(list(vals)[0])
                     o = fam.get('outlinks', {})
                     i = fam.get('inlinks', {})
-
-                    def val_of(x):
-                        if x is None:
-                            return None
-                        return int(x) if str(x).isdigit() else CE.get(mod, x)
                     oc = set(val_of(x) for v in o.values() for x in v)
                     ic = set(val_of(x) for v in i.values() for x in v)
-                    ok = {val_of(mp.get(True))} == oc and {val_of(mp.get(False))} == ic
+                    ok = {mp.get(True)} == oc and {mp.get(False)} == ic
                     exp = mp
                 rr.ob(where, 'generic accessors %s select the outbound field for out=True and the inbound field for out=False, '
                       'the same fields the directional accessors use (%s)' % (sorted(ms), exp), ok=ok)
